@@ -338,7 +338,7 @@ private:
 };
 
 static std::vector<std::pair<ContentPtr, ContentPtr>> g_virtuals;   // (virtual array, the layout its generator hands out)
-static bool g_virtual_inner = false;                                // wrap the content of the outermost node instead
+static int g_virtual_inner = 0;       // > 0: the VirtualArray sits that many nodes below the outermost one                                // wrap the content of the outermost node instead
 
 struct VirtualMode {
   bool on;
@@ -359,6 +359,21 @@ static ContentPtr make_virtual(const ContentPtr& x) {
                                                        std::make_shared<NumpyArray>(Index8(0)));
     form = y.get()->form(true);
   }
+  if (g_virtual.decl_form == 3 || g_virtual.decl_form == 4) {
+    // the form of a record array with the same field names: 3 = the same fields stored in reverse order (names keep
+    // their types: the same form by name), 4 = the contents reversed under the original names (names and types no
+    // longer belong together: a different form)
+    RecordArray* r = dynamic_cast<RecordArray*>(x.get());
+    if (r == nullptr || r->numfields() < 2 || r->istuple()) throw std::logic_error("driver: decl_form 3/4 need a record array with two or more named fields");
+    ContentPtrVec fwd = r->contents();
+    ContentPtrVec rev(fwd.rbegin(), fwd.rend());
+    util::RecordLookupPtr lookup = r->recordlookup();
+    if (g_virtual.decl_form == 3) {
+      lookup = std::make_shared<util::RecordLookup>(lookup.get()->rbegin(), lookup.get()->rend());
+    }
+    ContentPtr y = std::make_shared<RecordArray>(Identities::none(), r->parameters(), rev, lookup, r->length());
+    form = y.get()->form(true);
+  }
   int64_t length = g_virtual.decl_length;
   if (length == -2) length = x.get()->length();
   ArrayGeneratorPtr gen = std::make_shared<CountingGenerator>(form, length, x, g_virtual.fail_first);
@@ -371,43 +386,53 @@ static ContentPtr make_virtual(const ContentPtr& x) {
 
 // the same node with its content replaced by a VirtualArray of that content (lists, regular, indexed and option nodes);
 // any other node is wrapped as a whole
+static ContentPtr make_virtual_inner(const ContentPtr& x, int d);
 template <typename T>
-static bool virtual_list(const ContentPtr& x, ContentPtr& out) {
+static bool virtual_list(const ContentPtr& x, ContentPtr& out, int d) {
   if (ListOffsetArrayOf<T>* r = dynamic_cast<ListOffsetArrayOf<T>*>(x.get())) {
-    out = std::make_shared<ListOffsetArrayOf<T>>(r->identities(), r->parameters(), r->offsets(), make_virtual(r->content()));
+    out = std::make_shared<ListOffsetArrayOf<T>>(r->identities(), r->parameters(), r->offsets(), make_virtual_inner(r->content(), d - 1));
     return true;
   }
   if (ListArrayOf<T>* r = dynamic_cast<ListArrayOf<T>*>(x.get())) {
-    out = std::make_shared<ListArrayOf<T>>(r->identities(), r->parameters(), r->starts(), r->stops(), make_virtual(r->content()));
+    out = std::make_shared<ListArrayOf<T>>(r->identities(), r->parameters(), r->starts(), r->stops(), make_virtual_inner(r->content(), d - 1));
     return true;
   }
   return false;
 }
 template <typename T, bool OPT>
-static bool virtual_indexed(const ContentPtr& x, ContentPtr& out) {
+static bool virtual_indexed(const ContentPtr& x, ContentPtr& out, int d) {
   if (IndexedArrayOf<T, OPT>* r = dynamic_cast<IndexedArrayOf<T, OPT>*>(x.get())) {
-    out = std::make_shared<IndexedArrayOf<T, OPT>>(r->identities(), r->parameters(), r->index(), make_virtual(r->content()));
+    out = std::make_shared<IndexedArrayOf<T, OPT>>(r->identities(), r->parameters(), r->index(), make_virtual_inner(r->content(), d - 1));
     return true;
   }
   return false;
 }
-static ContentPtr make_virtual_inner(const ContentPtr& x) {
+static ContentPtr make_virtual_inner(const ContentPtr& x, int d) {
+  if (d <= 0) return make_virtual(x);
   ContentPtr out(nullptr);
   if (x.get()->parameter_equals("__array__", "\"string\"") || x.get()->parameter_equals("__array__", "\"bytestring\"")) return make_virtual(x);
-  if (virtual_list<int32_t>(x, out) || virtual_list<uint32_t>(x, out) || virtual_list<int64_t>(x, out)) return out;
-  if (virtual_indexed<int32_t, false>(x, out) || virtual_indexed<uint32_t, false>(x, out) || virtual_indexed<int64_t, false>(x, out)
-      || virtual_indexed<int32_t, true>(x, out) || virtual_indexed<int64_t, true>(x, out)) return out;
+  if (virtual_list<int32_t>(x, out, d) || virtual_list<uint32_t>(x, out, d) || virtual_list<int64_t>(x, out, d)) return out;
+  if (virtual_indexed<int32_t, false>(x, out, d) || virtual_indexed<uint32_t, false>(x, out, d) || virtual_indexed<int64_t, false>(x, out, d)
+      || virtual_indexed<int32_t, true>(x, out, d) || virtual_indexed<int64_t, true>(x, out, d)) return out;
   if (RegularArray* r = dynamic_cast<RegularArray*>(x.get()))
-    return std::make_shared<RegularArray>(r->identities(), r->parameters(), make_virtual(r->content()), r->size(), r->length());
+    return std::make_shared<RegularArray>(r->identities(), r->parameters(), make_virtual_inner(r->content(), d - 1), r->size(), r->length());
   if (ByteMaskedArray* r = dynamic_cast<ByteMaskedArray*>(x.get()))
-    return std::make_shared<ByteMaskedArray>(r->identities(), r->parameters(), r->mask(), make_virtual(r->content()), r->valid_when());
+    return std::make_shared<ByteMaskedArray>(r->identities(), r->parameters(), r->mask(), make_virtual_inner(r->content(), d - 1), r->valid_when());
   if (UnmaskedArray* r = dynamic_cast<UnmaskedArray*>(x.get()))
-    return std::make_shared<UnmaskedArray>(r->identities(), r->parameters(), make_virtual(r->content()));
+    return std::make_shared<UnmaskedArray>(r->identities(), r->parameters(), make_virtual_inner(r->content(), d - 1));
+  if (RecordArray* r = dynamic_cast<RecordArray*>(x.get())) {
+    // lazy columns: every field of the record array is a VirtualArray
+    ContentPtrVec fields;
+    for (auto c : r->contents()) fields.push_back(make_virtual_inner(c, d - 1));
+    if (!fields.empty())
+      return std::make_shared<RecordArray>(r->identities(), r->parameters(), fields, r->recordlookup(), r->length());
+  }
   return make_virtual(x);
 }
 
 static int64_t g_sharedunion = 0;   // > 0: wrap every input layout in a union of two references to itself
 static int64_t g_record_at = -1;    // >= 0: replace every input layout by the record at that position
+static int64_t g_tailview = 0;      // > 0: replace every input layout by a view of it that starts that many elements into its buffers
 static int64_t g_window = 0;        // > 0: wrap every input layout in a union of two overlapping windows of itself
 
 static ContentPtr input_layout(Toks& tk, bool may_wrap = true) {
@@ -416,10 +441,21 @@ static ContentPtr input_layout(Toks& tk, bool may_wrap = true) {
   std::ostringstream du;
   dump(x, du);
   g_before.push_back(du.str());
-  if (g_virtual.on && may_wrap) return g_virtual_inner ? make_virtual_inner(x) : make_virtual(x);
+  if (g_virtual.on && may_wrap) return make_virtual_inner(x, g_virtual_inner);
   if (g_record_at >= 0 && may_wrap) {
     // the operation is applied to one record taken out of the array (an awkward::Record scalar)
     return x.get()->getitem_at_nowrap(g_record_at);
+  }
+  if (g_tailview > 0 && may_wrap && x.get()->length() >= 1) {
+    // the same array as a range-slice view that does not start at the beginning of its buffers: k copies of the
+    // first element are put in front (an eager carry: fresh buffers), then sliced off again (x'[k:]), so the
+    // outermost Index / NumpyArray objects are views with a non-zero offset
+    int64_t n = x.get()->length();
+    Index64 c(n + g_tailview);
+    for (int64_t i = 0; i < g_tailview; i++) c.data()[i] = 0;
+    for (int64_t i = 0; i < n; i++) c.data()[g_tailview + i] = i;
+    ContentPtr bigger = x.get()->carry(c, false);
+    return bigger.get()->getitem_range_nowrap(g_tailview, n + g_tailview);
   }
   if (g_window > 0 && may_wrap
       && !dynamic_cast<UnionArray8_32*>(x.get()) && !dynamic_cast<UnionArray8_U32*>(x.get()) && !dynamic_cast<UnionArray8_64*>(x.get())
@@ -985,9 +1021,10 @@ static std::string run_op(const std::string& op, Toks& tk, ContentPtr& result) {
         << (bd.first ? "True" : "False") << "," << bd.second << ")";
     return out.str();
   }
-  else if (op == "virtual" || op == "virtual_inner") {
-    // (virtual_inner: the CONTENT of the outermost list / regular / indexed / option node is the VirtualArray)
-    g_virtual_inner = (op == "virtual_inner");
+  else if (op == "virtual" || op == "virtual_inner" || op == "virtual_inner2") {
+    // (virtual_inner: the CONTENT of the outermost list / regular / indexed / option node, or every field of the
+    // outermost record array, is the VirtualArray; virtual_inner2: one node further down)
+    g_virtual_inner = (op == "virtual_inner") ? 1 : (op == "virtual_inner2") ? 2 : 0;
     // virtual <cache_keep> <decl_length> <decl_form> <fail_first> <sub-op ...>: every input layout of the sub-operation
     // is wrapped in a VirtualArray; payload = (value, number of generator calls)
     g_virtual.on = true;
@@ -1031,6 +1068,16 @@ static std::string run_op(const std::string& op, Toks& tk, ContentPtr& result) {
     try { payload = run_op(sub, tk, result); }
     catch (...) { g_window = 0; throw; }
     g_window = 0;
+    return payload;
+  }
+  else if (op == "tailview") {
+    // tailview <k> <sub-op ...>: the sub-operation on a view of x that starts k elements into its buffers
+    g_tailview = tk.i64();
+    std::string sub = tk.next();
+    std::string payload;
+    try { payload = run_op(sub, tk, result); }
+    catch (...) { g_tailview = 0; throw; }
+    g_tailview = 0;
     return payload;
   }
   else if (op == "sharedunion") {
@@ -1348,6 +1395,13 @@ static void run_case(const std::string& line) {
       try { tostr(g_virtuals[i].first, a); } catch (std::exception& e) { continue; }
       tostr(g_virtuals[i].second, b);
       if (a.str() != b.str()) pure = 0;
+      // ... and answers depth queries as that layout does
+      try {
+        Content* v = g_virtuals[i].first.get();
+        Content* u = g_virtuals[i].second.get();
+        if (pure == 1 && (v->purelist_depth() != u->purelist_depth() || v->minmax_depth() != u->minmax_depth()
+                          || v->branch_depth() != u->branch_depth())) pure = 3;
+      } catch (std::exception& e) { }
     }
     g_virtuals.clear();
     // the result must survive its inputs: drop them, then render again
